@@ -314,6 +314,15 @@ func Execute(p Prop, driverPath string, seed uint64, tier string, replay []strin
 		r := NewRng(seed)
 		p.Gen(r, tier, func(l string) { lines = append(lines, l) })
 	}
+	prof := func(what string) {
+		if pf := os.Getenv("VERIF_PROFILE"); pf != "" {
+			if f, err := os.OpenFile(pf, os.O_APPEND|os.O_CREATE|os.O_WRONLY, 0o644); err == nil {
+				fmt.Fprintf(f, "%s %s at %.1fs\n", p.ID(), what, time.Since(t0).Seconds())
+				f.Close()
+			}
+		}
+	}
+	prof("generated")
 	// crash journal: which cases were in flight if the process running the real code dies
 	var journal *os.File
 	var jmu sync.Mutex
@@ -358,8 +367,10 @@ func Execute(p Prop, driverPath string, seed uint64, tier string, replay []strin
 	if journal != nil {
 		journal.Close()
 	}
+	prof("real code done")
 	// model
 	modelOuts, derr := Driver(driverPath, lines)
+	prof("model done")
 	if derr != nil {
 		res.Note("driver error: " + derr.Error())
 		res.AddViolation(Violation{What: "model driver failed: " + derr.Error(), Source: "disagreement", NoWitness: true, Obligation: "pmdriver run"})
@@ -401,6 +412,7 @@ func Execute(p Prop, driverPath string, seed uint64, tier string, replay []strin
 			res.AddViolation(v)
 		}
 	}
+	prof("compared and judged")
 	res.DistinctNT = len(seen)
 	// samples: a few spread over the run
 	if len(lines) > 0 {
